@@ -21,7 +21,13 @@ pub const JUNK: [&str; 4] = ["junk", "junk more", "-x: y", "é: v"];
 
 pub fn k_for(tier: Tier, sk: Skel) -> usize {
     match tier {
-        Tier::Quick => 2,
+        Tier::Quick => {
+            if sk.paras * sk.fields <= 2 {
+                3
+            } else {
+                2
+            }
+        }
         Tier::Thorough => {
             if sk.paras * sk.fields <= 2 {
                 4
